@@ -18,8 +18,10 @@ use std::sync::Arc;
 pub fn generate(verif_seed: u64, idx: u64, property: &str, thorough: bool) -> Scenario {
     // 8 consecutive indices share a base scenario and move the abandonment
     // point of the victim task through suspension points 0..7
-    let family = idx >> 3;
-    let cancel_point = (idx & 7) as u32;
+    // (thorough tier: 32 consecutive indices, suspension points 0..31)
+    let bits = if thorough { 5 } else { 3 };
+    let family = idx >> bits;
+    let cancel_point = (idx & ((1 << bits) - 1)) as u32;
     let seed = run_seed(verif_seed, property, family);
     let mut rng = Rng::new(seed);
     let mut scn = Scenario::new(property);
